@@ -170,6 +170,9 @@ func c20Schedule(ep *vnet.Endpoint, evs []Ev, discover bool) {
 
 func c20Describe(slots int) func() {
 	return func() {
+		if slots != 1 {
+			defer logChoice()()
+		}
 		timeout := []mc.Duration{1 * ms, 500 * ms}[mc.Choose(2, mc.Free)]
 		w := vnet.Reset()
 		var ep *vnet.Endpoint
@@ -246,6 +249,9 @@ func c20Describe(slots int) func() {
 
 func c20Discover(slots int, flat int) func() {
 	return func() {
+		if slots != 1 {
+			defer logChoice()()
+		}
 		timeout := []mc.Duration{1 * ms, 500 * ms}[mc.Choose(2, mc.Free)]
 		w := vnet.Reset()
 		var ep *vnet.Endpoint
